@@ -7,7 +7,7 @@ From Tangelo Require Import Num.KStruct Num.CReal Num.Cyc QSem.State QSem.StateL
 From Tangelo Require Import Linq.GateModel Linq.CircuitModel Linq.History Linq.CircuitProofs Linq.Interp
      Linq.InterpProofs Linq.PassLemmas Linq.Clifford Linq.RealInst Linq.LinqZ Linq.Equiv Linq.SmallRot.
 From Tangelo Require Import Linq.ScanLemmas Linq.InterpFacts Linq.MergeProofs Linq.GateEqSound Linq.RedundantProofs
-     Linq.SimplifyProofs.
+     Linq.RedundantExact Linq.SimplifyProofs.
 From Gen Require Import GateTables CliffordTables.
 Import ListNotations.
 Open Scope string_scope.
@@ -215,6 +215,24 @@ Proof.
                                 (proj1 (proj2 C09_pass_tables_ok))).
 Qed.
 Print Assumptions C09_remove_redundant_sound.
+
+(* 14b. ... and EXACTLY (no sign), for every real angle, when the cancelled pairs are exact inverses:
+        for any comparison of parameters that only accepts equal angles (eqmod universally quantified
+        under that hypothesis), the gates kept by remove_redundant_gates denote the same operation. *)
+Theorem C09_remove_redundant_exact :
+  forall (eqmod : bool -> R -> R -> bool),
+    (forall l a b, eqmod l a b = true -> a = b) ->
+    forall (gs out : list (pgate R)) C,
+      Forall (fun g => gate_okb R g = true) gs -> rinterp_all gs = Some C ->
+      redundant_core R Ropp eqmod (of_units inv_S_units) (of_units inv_T_units) gtables gs = Ok out ->
+      Forall (fun g => gate_okb R g = true) out
+      /\ exists C', rinterp_all out = Some C' /\ forall psi, den RS C' psi = den RS C psi.
+Proof.
+  intros eqmod Hex.
+  exact (remove_redundant_exact RS R (fun a => a) Ropp eqmod (of_units inv_S_units) (of_units inv_T_units) gtables
+                                (fun a => eq_refl) of_units_m4 of_units_m2 Hex).
+Qed.
+Print Assumptions C09_remove_redundant_exact.
 
 (* 15. simplify (copy, then cycles of merge_rotations / remove_small_rotations / remove_redundant_gates
        until nothing changes or max_cycles is reached), on the exact grid: for every valid circuit,
